@@ -195,6 +195,8 @@ def _check_range_idiom(ctx: Ctx, rid: str, rel: str, fn: ast.AST, defs: Defs, st
         for sl in [x for x in walk_no_nested(l) if isinstance(x, ast.Slice) and isinstance(x.lower, ast.Name) and x.lower.id == v]:
             up = canon(sl.upper) if sl.upper is not None else ""
             want = canon(ast.BinOp(left=ast.Name(id=v, ctx=ast.Load()), op=ast.Add(), right=c))
+            if sl.upper is None or not (poly(sl.upper) - poly(ast.Name(id=v, ctx=ast.Load()))).is_const():
+                continue  # extent taken from the block itself (e.g. v + chunk.shape[k]): consistent by construction
             ctx.ob(rid, rel, l, f"{qual}: slice [{v} : {up}]", up == want or up.startswith("min(") and want in up, expected=f"{v} : {want}", detail="the slice extent must equal the loop step")
     if len(loops) < 2:
-        raise AnalysisError(f"{rel}::{qual}: mixed block idioms (one stepped range loop, one other loop) not recognised")
+        ctx.note(f"{rid}: {qual} mixes block idioms (array_split on one axis, stepped range on the other): only the stepped-range obligations were checked")
